@@ -662,9 +662,37 @@ def gen_pkt():
         status["census." + k] = {"ok": cur[k] == pinned.get(k), "value": cur[k], "where": files[k][0].replace(REPO + "/", "")}
 
 
+def gen_net():
+    sock = strip_comments(read(os.path.join(NET, "socket.rs")))
+    udp = strip_comments(read(os.path.join(NET, "udp.rs")))
+    outq = strip_comments(read(os.path.join(CORE, "dns/outquery.rs")))
+    pat = r"\{\s*libc::in_addr\s*\{\s*s_addr:\s*u32::from_ne_bytes\(addr\.octets\(\)\),\s*\}\s*\}\s*$"
+    ok = all(re.search(pat, fn_body(src, "std_to_libc_in_addr") or "") for src in (sock, udp))
+    record("net.inAddrFromNeBytes", ok, "erbium-net socket.rs / udp.rs std_to_libc_in_addr", ok=ok)
+    used = bool(re.search(r"in_pktinfo\.ipi_spec_dst = std_to_libc_in_addr\(ip\);", fn_body(sock, "send_msg") or ""))
+    record("net.replySourceFromSendFrom", used, "erbium-net socket.rs send_msg", ok=used)
+    stq = fn_body(outq, "send_tcp_query") or ""
+    fresh = bool(re.search(r"let orig_qid = msg\.out_query\.qid;\s*let mut qid = orig_qid;\s*while self\.qid2reply\.contains_key\(&qid\) \{\s*qid = qid\.wrapping_add\(1\);\s*if qid == orig_qid \{", stq)) \
+        and bool(re.search(r"msg\.out_query\.qid = qid;\s*self\.qid2reply\.insert\(qid, \(orig_qid, msg\.out_reply\)\);", stq)) and "assert!" not in stq
+    record("dns.muxFreshId", fresh, "dns/outquery.rs send_tcp_query", ok=fresh)
+    str_ = fn_body(outq, "send_tcp_reply") or ""
+    restore = bool(re.search(r"if let Some\(\(orig_qid, resp\)\) = self\.qid2reply\.remove\(&qid\) \{\s*let _ = resp\.send\(reply\.map\(\|mut pkt\| \{\s*pkt\.qid = orig_qid;\s*pkt\s*\}\)\);", str_))
+    gone = restore and ".unwrap()" not in (fn_body(outq, "tcp_teardown") or ".unwrap()") and ".unwrap()" not in str_
+    record("dns.muxRestoresCallerId", restore, "dns/outquery.rs send_tcp_reply", ok=restore)
+    record("dns.muxSendIgnoresGoneWaiter", gone, "dns/outquery.rs send_tcp_reply / tcp_teardown", ok=gone)
+    L = ["-- generated by tools/extract.py; do not edit", "namespace Erbium.Generated.Net",
+         "/-- `std_to_libc_in_addr` builds `s_addr` with `u32::from_ne_bytes(addr.octets())` -/",
+         "def inAddrFromNeBytes : Bool := %s" % boolean(ok),
+         "/-- `send_tcp_query` picks the next free id instead of asserting that the caller's id is free -/",
+         "def muxFreshId : Bool := %s" % boolean(fresh and restore),
+         "def muxSendIgnoresGoneWaiter : Bool := %s" % boolean(gone),
+         "end Erbium.Generated.Net"]
+    write_if_changed(os.path.join(OUT, "Net.lean"), "\n".join(L) + "\n")
+
+
 def main():
     os.makedirs(OUT, exist_ok=True)
-    gens = [gen_dhcp, gen_pool, gen_acl, gen_dns, gen_pkt]
+    gens = [gen_dhcp, gen_pool, gen_acl, gen_dns, gen_pkt, gen_net]
     for g in gens:
         try:
             g()
